@@ -223,6 +223,14 @@ func retBuild(ing string, segs []*rseg) {
 			retBlob[s.basedir+sutils.SegmentValidityFname] = true
 			sm := &structs.SegMeta{SegmentKey: s.segkey, LatestEpochMS: s.real, EarliestEpochMS: s.real, SegbaseDir: s.basedir,
 				VirtualTableName: fmt.Sprintf("rtx%d", s.org), RecordCount: 1, BytesReceivedCount: s.size, NumBlocks: 1, OrgId: s.org}
+			if len(s.pqs) > 0 {
+				// as at rotation (segstore.go): the segment's pqids go to its .sfm file (BulkAddRotatedSegmetas below),
+				// those with empty results also to the pqmeta files; one more pqid stands for a query with results
+				sm.AllPQIDs = map[string]bool{retPqid(9999): true}
+				for _, p := range s.pqs {
+					sm.AllPQIDs[retPqid(p)] = true
+				}
+			}
 			metas = append(metas, sm)
 			segmetadata.AddSegMetaToMetadata(sm)
 			for _, p := range s.pqs {
@@ -240,7 +248,7 @@ func retBuild(ing string, segs []*rseg) {
 			segmetadata.BulkAddMetricsSegment([]*segmetadata.MetricsSegmentMetadata{segmetadata.InitMetricsMicroIndex(mm)})
 		}
 	}
-	writer.BulkAddRotatedSegmetas(metas, false)
+	writer.BulkAddRotatedSegmetas(metas, true)
 }
 
 type retObs struct {
@@ -250,6 +258,10 @@ type retObs struct {
 
 func retObserve(segs []*rseg) retObs {
 	o := retObs{map[string]bool{}, map[string]bool{}, map[string]bool{}, map[string]bool{}, map[string]bool{}}
+	// step 4 of DeleteSegmentData only queues the removals from the pqmeta files (a channel drained every 10 s)
+	if !writer.VerifDrainPqsRequests() {
+		panic("ret: the pqs request channel was not drained")
+	}
 	for _, m := range writer.ReadLocalSegmeta(false) {
 		o.meta[m.SegmentKey] = true
 	}
@@ -637,6 +649,16 @@ func execRetInt(f []string) Result {
 				k = n
 			}
 			return vs[:k]
+		}
+		if cut >= n {
+			// the head of DeleteSegmentData (call-order fact: ReadSfm first): pqids from the .sfm files
+			for _, v := range vs {
+				if v.AllPQIDs == nil {
+					if sfm, err := writer.ReadSfm(v.SegmentKey); err == nil {
+						v.AllPQIDs = sfm.AllPQIDs
+					}
+				}
+			}
 		}
 		if cut < n {
 			// a crash inside phase 1 of the REAL DeleteSegmentData: after `cut` segments' blob objects
